@@ -13,7 +13,7 @@ typedef struct { uint64_t id; uint32_t dst; uint32_t flags; } rec_t;
 
 static tp_p g_tp;
 static size_t g_pool;
-static rec_t *g_recs; static size_t g_nrecs;
+static rec_t *g_recs; static size_t g_nrecs; static rec_t g_late[64];
 static volatile uint64_t g_cb_count, g_ok_sends, g_senders_done, g_barrier_cnt;
 static sem_t g_gate_sem;
 
@@ -66,10 +66,18 @@ static void on_start(tpt_p tpt) {
 	if (tpt_get_current() == tpt) { tm_tid = (uint32_t)num; }
 	TM_LOG(EV_HOOK_START, 0, num, 0, 0);
 }
-static void on_stop(tpt_p tpt) { TM_LOG(EV_HOOK_STOP, 0, tpt_get_num(tpt), 0, 0); }
+static sem_t g_stop_gate; static int g_park_in_stop; static volatile uint64_t g_in_stop;
+static void on_stop(tpt_p tpt) {
+	TM_LOG(EV_HOOK_STOP, 0, tpt_get_num(tpt), 0, 0);
+	if (g_park_in_stop && tpt_get_current() == tpt) { /* worker (not the virtual thread): stay in STOPING until released */
+		__atomic_add_fetch(&g_in_stop, 1, __ATOMIC_RELEASE);
+		sem_wait(&g_stop_gate);
+	}
+}
 
 static void msg_cb(tpt_p tpt, void *udata) {
 	rec_t *r = udata;
+	if (r >= g_late && r < g_late + 64) { TM_LOG(EV_CB, (uint16_t)(tpt == tp_thread_get_pvt(g_tp)), r->id, tpt_get_num(tpt), 0); return; }
 	if (r < g_recs || r >= g_recs + g_nrecs || ((uintptr_t)r - (uintptr_t)g_recs) % sizeof(rec_t)) {
 		TM_LOG(EV_BADARG, 0, (uint64_t)(uintptr_t)udata, 0, 0);
 		return;
@@ -146,7 +154,7 @@ int main(void) {
 	nmsgs = vin_u32(&in); flags_fixed = vin_u8(&in); flags_rand = vin_u8(&in); dst_mode = vin_u8(&in); dst_k = vin_u8(&in);
 	pass_src = vin_u8(&in); bind = vin_u8(&in);
 	tm_perturb_permille = vin_u16(&in); tm_sleep_max_us = vin_u16(&in); tm_point_mask = vin_u64(&in);
-	gate = vin_u8(&in); gate_dst = vin_u8(&in);
+	gate = vin_u8(&in); gate_dst = vin_u8(&in); g_park_in_stop = vin_u8(&in);
 	wkind = vin_u8(&in); nw = vin_u16(&in);
 	g_wfault_max = 1u << 20; g_wfault_pos = calloc(g_wfault_max, 1);
 	for (i = 0; i < nw; i++) { uint32_t k = vin_u32(&in); if (k < g_wfault_max) g_wfault_pos[k] = 1; }
@@ -156,7 +164,7 @@ int main(void) {
 	if (in.bad) { fprintf(stderr, "bad case\n"); return 3; }
 	g_wfault_kind = (int)wkind; g_rfault_kind = (int)rkind;
 	tm_scn_seed = seed; tm_tid = 999; g_pool = pool;
-	sem_init(&g_gate_sem, 0, 0);
+	sem_init(&g_gate_sem, 0, 0); sem_init(&g_stop_gate, 0, 0);
 
 	fd0 = tm_fd_count(); task0 = tm_task_count();
 	tp_settings_def(&s);
@@ -209,6 +217,21 @@ int main(void) {
 	TM_LOG(EV_PHASE, 4, 0, 0, 0);
 	__atomic_store_n(&g_armed, 0, __ATOMIC_RELAXED);
 	tp_shutdown(g_tp);
+	if (g_park_in_stop) {
+		/* every started worker is now parked inside its stop hook (state STOPING, queue no longer read):
+		 * a send to it must be refused, or run directly when FORCE is given - never accepted into the dead queue */
+		unsigned nstarted = pool - (start_mode == 1), k;
+		if (tm_wait_ge(&g_in_stop, nstarted, 30000)) timeout = 1;
+		for (k = 0; k < 64 && !timeout; k++) {
+			rec_t *r = &g_late[k]; uint64_t rnd = tm_rand(); int lrc;
+			uint32_t dst = (uint32_t)((rnd >> 16) % (pool + 1)), fl = (uint32_t)(rnd >> 8) & 7;
+			r->id = ((uint64_t)0xee << 32) | k; r->dst = dst; r->flags = fl;
+			TM_LOG(EV_SEND_CALL, (uint16_t)fl, r->id, dst, 1 /* destination known to be stopping */);
+			lrc = tpt_msg_send(dst == pool ? tp_thread_get_pvt(g_tp) : tp_thread_get(g_tp, dst), NULL, fl, msg_cb, r);
+			TM_LOG(EV_SEND_RET, 0, r->id, dst, lrc);
+		}
+		for (k = 0; k < nstarted; k++) sem_post(&g_stop_gate);
+	}
 	tp_shutdown_wait(g_tp);
 	rc = tp_destroy(g_tp);
 	TM_LOG(EV_PHASE, 5, 0, 0, rc);
